@@ -175,6 +175,8 @@ def run_task(task):
                          line=o.line, path=o.path)
                 if (o.extra or {}).get('uncertain_path'):
                     r['uncertain_path'] = True
+                if (o.extra or {}).get('weak_path'):
+                    r['weak_path'] = True
                 if r['status'] != 'discharged':
                     r['goal'] = str(z3.simplify(o.goal))[:600]
                 return r
